@@ -725,6 +725,26 @@ func c15EndToEnd(c *vf.Ctx, rng *rand.Rand) {
 			os.RemoveAll(dir)
 			continue
 		}
+		if done%4 >= 2 {
+			// a read-only re-attach (mrp --inspect): the same comparison applies;
+			// once attached mrp stays alive until it is stopped
+			r3 := cs.Run(vrun.RunOpts{Args: append(append([]string{}, args...), "--inspect"), Seed: seed, Timeout: 15 * time.Second})
+			cs.KillAll()
+			c.Eval(1)
+			c.Count("e2e_inspect_reattach_scenarios", 1)
+			c.Distinct(fmt.Sprintf("e2e-inspect|%d|%s", seed, label))
+			attached := strings.Contains(r3.Output, "staying alive because --inspect")
+			refusedRO := !r3.TimedOut && r3.Exit != 0 && !attached
+			replay := map[string]interface{}{"original": files, "edited": nf, "edit": label, "mrp_output": tail(stripDump(r3.Output), 1500)}
+			switch {
+			case !attached && !refusedRO:
+				c.Inconclusive("mrp --inspect neither attached nor refused")
+			case cosmetic && refusedRO:
+				c.Violate("C15:e2e:inspect:cosmetic-edit-refused:"+label, fmt.Sprintf("mrp --inspect refused to attach after cosmetic edit %q of the included files: %s", label, tail(r3.Output, 400)), replay)
+			case !cosmetic && attached:
+				c.Violate("C15:e2e:inspect:semantic-edit-accepted:"+label, fmt.Sprintf("mrp --inspect attached to the pipestance after semantic edit %q", label), replay)
+			}
+		}
 		r2 := cs.Run(vrun.RunOpts{Args: args, Seed: seed, Timeout: 120 * time.Second})
 		c.Eval(1)
 		c.Count("e2e_reattach_scenarios", 1)
